@@ -22,7 +22,7 @@ RULE = ('Programs: histories of 3-12 steps mixing legal adds with calls to every
         'observe(G) unchanged. non-trivial = an accepted add before and after a blocked call and >= 3 different inherited '
         'callables exercised.')
 ASSUMPTIONS = ['e > t', 'dunder methods and properties are not "public callables"; mutating a dict obtained from a read accessor is not a call']
-BUDGET = {'quick': {'cases': 6000, 'seconds': 45}, 'thorough': {'cases': 90000, 'seconds': 540}}
+BUDGET = {'quick': {'cases': 10000, 'seconds': 45}, 'thorough': {'cases': 120000, 'seconds': 540}}
 
 BLOCKED = ['add_edge', 'add_edges_from', 'add_weighted_edges_from', 'update', 'remove_edge', 'remove_edges_from', 'remove_node',
            'remove_nodes_from', 'edges_iter', 'in_edges', 'out_edges', 'in_edges_iter', 'out_edges_iter',
@@ -42,7 +42,7 @@ STEP = st.one_of(
 
 
 def strategy(tier):
-    hist = gen.history(max_ops=8, min_ops=4, kinds=['add', 'add', 'add', 'add_from', 'path', 'cycle', 'node'], attrs=False,
+    hist = gen.tiered(tier, max_ops=8, min_ops=4, kinds=['add', 'add', 'add', 'add_from', 'path', 'cycle', 'node'], attrs=False,
                        node_kinds=('int', 'str', 'mixed'))
     return st.tuples(hist, st.lists(st.tuples(st.integers(0, 6), STEP), min_size=3, max_size=8),
                      st.lists(st.sampled_from(FROZEN_MUTATORS), min_size=4, max_size=8, unique=True), st.integers(0, 1000)).map(
